@@ -505,7 +505,7 @@ def run_property(prop, tier: str, seed: int) -> int:
     # shrink and report
     new_keys = [k for k in total.buckets if k[1] is None]
     known_keys = [k for k in total.buckets if k[1] is not None]
-    outdir = os.path.join(HOME, "out", prop.ID)
+    outdir = os.path.join(os.environ.get("VERIF_OUT_DIR") or os.path.join(HOME, "out"), prop.ID)
     if os.path.isdir(outdir):  # replay files of earlier runs are stale
         for fn in os.listdir(outdir):
             if fn.endswith(".json"):
@@ -586,8 +586,9 @@ def run_property(prop, tier: str, seed: int) -> int:
         "wall_s": round(wall, 2),
         "violations": len(violations),
     }
-    os.makedirs(os.path.join(HOME, "evidence"), exist_ok=True)
-    with open(os.path.join(HOME, "evidence", f"{prop.ID}.json"), "w", encoding="utf8") as f:
+    evdir = os.environ.get("VERIF_EVIDENCE_DIR") or os.path.join(HOME, "evidence")
+    os.makedirs(evdir, exist_ok=True)
+    with open(os.path.join(evdir, f"{prop.ID}.json"), "w", encoding="utf8") as f:
         json.dump(ev, f, ensure_ascii=False, indent=1, default=repr)
     print(
         f"{prop.ID} tier={tier} seed={seed}: evaluations={total.evals} distinct_nontrivial={len(total.nontrivial)} "
